@@ -77,6 +77,9 @@ def build_spec(seed: int, tier: str, enum_index: int | None = None, doc_seed: in
         "post_hooks": a.choice([[], [], [], [], [], ["true"], ["verif_missing_cmd"], ["false"], ["verif_missing_cmd", "false"], ["false", "verif_missing_cmd"], ["true", "false"]]),
         "yaml_native": a.choice([None, None, None, 0, 1, 2]),
     }
+    # --file-encoding: the default, encodings that cannot represent every character of a document, one with a BOM, and a
+    # name that is not an encoding at all (must be refused before anything is read or written)
+    spec["file_encoding"] = a.choice([None] * 12 + ["ascii", "latin-1", "cp1252", "utf-16", "verif-bogus"])
     if enum_index is not None:
         space = faults.single_fault_space(doc)
         f = space[enum_index % len(space)]
@@ -190,6 +193,8 @@ def run_spec(args: dict, sandbox: str) -> dict:
         argv += ["--url", ch["url"]]
     if spec["fail_on_warning"]:
         argv.append("--fail-on-warning")
+    if spec.get("file_encoding"):
+        argv += ["--file-encoding", spec["file_encoding"]]
     out = os.path.join(P, "out")
     if spec["output"] == "explicit":
         argv += ["--output-path", out]
@@ -242,7 +247,13 @@ def run_spec(args: dict, sandbox: str) -> dict:
         violations.append({"kind": "crash", "locus": locus, "detail": f"unhandled {res['exception']}: {res['exception_msg']}\n{res['tb'][-1200:]}"})
         outcome = "crash"
     else:
-        if diags is None:
+        if diags is None and spec.get("file_encoding") == "verif-bogus":
+            outcome = "refused-encoding"
+            if res["exit_code"] != 1 or "Unknown encoding" not in (res["stdout"] + res["stderr"]):
+                violations.append({"kind": "unknown-encoding-not-refused", "locus": f"exit={res['exit_code']}", "detail": (res["stdout"] + res["stderr"])[-300:]})
+            if seam.mutating_ok():
+                violations.append({"kind": "rejected-but-wrote", "locus": seam.mutating_ok()[0]["op"], "detail": f"unknown --file-encoding refused but the file system was changed: {[(r_['op'], r_['path']) for r_ in seam.mutating_ok()[:5]]}"})
+        elif diags is None:
             violations.append({"kind": "no-generate-call", "locus": f"exit={res['exit_code']}", "detail": res["stderr"][-500:]})
         else:
             has_error = any(d["level"] == "ERROR" for d in diags)
@@ -401,6 +412,8 @@ def shrink_candidates(spec: dict) -> list[dict]:
         out.append(variant(output="explicit"))
     if spec.get("precreate"):
         out.append(variant(precreate=None))
+    if spec.get("file_encoding"):
+        out.append(variant(file_encoding=None))
     if spec.get("post_hooks"):
         out.append(variant(post_hooks=[]))
         if len(spec["post_hooks"]) > 1:
